@@ -196,11 +196,12 @@ Step(C, m) ==
                 st == m.store
                 st1 == IF n.k # "state" THEN st
                        ELSE CASE n.op = "set" -> [st EXCEPT ![n.key] = n.arg]
-                              [] n.op = "inc" -> [st EXCEPT ![n.key] = (IF @ = -1 THEN 0 ELSE @) + n.arg]
+                              [] n.op = "inc" -> [st EXCEPT ![n.key] = (IF @ < 0 THEN 0 ELSE @) + n.arg]
                               [] n.op = "app" -> [st EXCEPT !.cl = Append(@, n.arg)]
                       [] n.op = "del" -> [st EXCEPT ![n.key] = -1]
+                      [] n.op = "nil" -> [st EXCEPT ![n.key] = -2]      \* the key is PRESENT and holds nil (-1: no such key)
                               [] OTHER -> st
-                cur == IF n.key = "cl" THEN Len(st.cl) ELSE IF st[n.key] = -1 THEN 0 ELSE st[n.key]
+                cur == IF n.key = "cl" THEN Len(st.cl) ELSE IF st[n.key] < 0 THEN 0 ELSE st[n.key]
                 args == ev.args[2]
                 b == CASE n.op = "true" -> TRUE [] n.op = "false" -> FALSE [] n.op = "eq" -> cur = n.arg
                        [] n.op = "glt" -> m.g < n.arg [] n.op = "nil" -> (Len(args) > 0 /\ args[1] = Nil) [] OTHER -> TRUE
